@@ -13,6 +13,12 @@
 //          an op may carry a schedule restriction ^bK (^eK): it is not started before task K began
 //          (ended); ^i: not before every pool worker is parked.  This only narrows the schedules explored (directed scenarios); it is not part of
 //          the program.
+//          Stale central-queue hint (prefix "STALE=K "): ThreadPool::centralQueueNonEmpty_ is documented as allowed to be
+//          wrong - a worker that saw the queue empty clears it with a plain store that may overwrite a producer's set.
+//          With STALE=K a worker that arrives at that store (site TpWkClearFlag) is not resumed before the schedule call
+//          of task K has returned (or main's program ended), so its clear hides task K (and everything queued before it).
+//          ^c: not before every pool worker is parked at that store; ^hK: not before the hint is stale (reads false
+//          while the central queue is not empty) or task K began.  Again pure schedule restrictions.
 // Every body logs begin/end, every API call logs call/ret (each in its own step).  C++ only drives,
 // records and projects (central queue / ring / steal ring sizes); every verdict is TLC's.
 #include <dispenso/future.h>
@@ -23,6 +29,7 @@
 #include <unistd.h>
 
 #include <atomic>
+#include <cstring>
 #include <fstream>
 #include <memory>
 
@@ -37,7 +44,7 @@ struct Op {
   char op = 0; // s a w g b p
   int a = 0;
   std::vector<int> ks;
-  char guard = 0; // 'b' / 'e' / 'i' / 0
+  char guard = 0; // 'b' / 'e' / 'i' / 'c' / 'h' / 0
   int gk = 0;
 };
 struct TaskDef {
@@ -48,6 +55,7 @@ struct Program {
   std::string text;
   std::vector<int> nws; // pool sizes this program is run with (empty = the --nw list)
   long long runs = 0; // executions per pool size (0 = --runs)
+  int stale = 0; // directed stale central-queue hint: hide task `stale` (0 = off)
   std::vector<char> sets; // H L T
   std::vector<TaskDef> tasks; // 1-based: tasks[k-1]
   std::vector<Op> main;
@@ -86,6 +94,8 @@ static Program parseProgram(const std::string& line) {
         p.nws.push_back(atoi(s.c_str()));
     } else if (text.rfind("R=", 0) == 0) {
       p.runs = atoll(text.c_str() + 2);
+    } else if (text.rfind("STALE=", 0) == 0) {
+      p.stale = atoi(text.c_str() + 6);
     } else {
       break;
     }
@@ -195,7 +205,27 @@ struct World {
   std::vector<std::unique_ptr<dispenso::TaskSet>> ts;
   std::vector<dispenso::Future<void>> futs;
   std::unique_ptr<std::atomic<int>[]> begun, ended;
+  std::unique_ptr<std::atomic<int>[]> schedRet; // the schedule call of task k has returned
+  int nw = 0;
+  std::atomic<int> heldAtClear{0}; // workers currently parked before their hint-clearing store (STALE=K)
 };
+
+// Directed stale hint (STALE=K): the site filter runs on the thread that arrives at a point, before it parks there.  A
+// pool worker arriving at TpWkClearFlag has just seen the central queue empty; it first parks at the gate "GateStale"
+// until the schedule call of task K has returned, then performs its (now stale) clear.  The gate is a driver-level
+// event: a stuttering step for the specification.  Released at the end of main's program so that tear-down proceeds.
+static World* g_world = nullptr;
+static bool staleRelease(World* w) {
+  return w->ended[0].load() != 0 || w->schedRet[(size_t)w->prog->stale].load() != 0;
+}
+static void holdStaleClear(const char* s) {
+  World* w = g_world;
+  if (!w || !w->prog->stale || s[0] != 'T' || strcmp(s, "TpWkClearFlag") != 0 || ctl::selfName()[0] != 'w' || staleRelease(w))
+    return;
+  w->heldAtClear.fetch_add(1);
+  ctl::gate("GateStale", [w]() { return staleRelease(w); });
+  w->heldAtClear.fetch_sub(1);
+}
 
 static void runOps(World* w, const std::vector<Op>& ops);
 
@@ -213,6 +243,16 @@ static void runOps(World* w, const std::vector<Op>& ops) {
     if (o.guard == 'i') {
       // not before every pool worker is parked (so that placed scheduling finds a sleeper to claim)
       ctl::gate("DrOp", []() { return ctl::allDynamicThreadsParked(); });
+    } else if (o.guard == 'c') {
+      // not before every pool worker is parked in front of its hint-clearing store (STALE=K programs)
+      ctl::gate("DrOp", [w]() { return w->heldAtClear.load() >= w->nw; });
+    } else if (o.guard == 'h') {
+      // not before the central-queue hint is stale (reads "empty" while a task is queued) - or task gk began, after
+      // which it cannot become stale for that task any more (an idle worker's time-out probe repaired it)
+      std::atomic<int>* flag = &w->begun[(size_t)o.gk];
+      ctl::gate("DrOp", [w, flag]() {
+        return flag->load() != 0 || (!w->pool->centralQueueNonEmpty_.load() && w->pool->work_.size_approx() > 0);
+      });
     } else if (o.guard) {
       std::atomic<int>* flag = o.guard == 'b' ? &w->begun[(size_t)o.gk] : &w->ended[(size_t)o.gk];
       ctl::gate("DrOp", [flag]() { return flag->load() != 0; });
@@ -279,10 +319,13 @@ static void runOps(World* w, const std::vector<Op>& ops) {
     }
     ctl::point("DrRet");
     ctl::note("ret", code, o.a);
+    if (o.op == 's')
+      w->schedRet[(size_t)o.a].store(1);
   }
 }
 
 static bool siteFilter(const char* s) {
+  holdStaleClear(s);
   // pool-level points only: rings / queues / arenas are atomic units; the task-set points of the
   // C02/C04/C05 component (prefix Ts) pass through, so that a pop and the body it starts are one step
   return (s[0] == 'T' && s[1] == 'p') || (s[0] == 'P' && s[1] == 'w') || (s[0] == 'E' && s[1] == 'w') ||
@@ -298,6 +341,7 @@ static void project(World* w, Json& j) {
   auto& p = *w->pool;
   j.kv("alive", 1);
   j.kv("cq", (long long)p.work_.size_approx());
+  j.kv("flag", p.centralQueueNonEmpty_.load() ? 1 : 0); // the lossy hint (diagnosis only: no conjunct may rely on it)
   j.key("rings").beginArr();
   for (size_t i = 0; i < p.rings_.size(); ++i)
     j.num((long long)p.rings_[i].size());
@@ -316,10 +360,14 @@ static ctl::RunResult execute(const Program& prog, int pidx, int nw, int mult, c
   size_t nt = prog.tasks.size();
   w->begun.reset(new std::atomic<int>[nt + 1]);
   w->ended.reset(new std::atomic<int>[nt + 1]);
+  w->schedRet.reset(new std::atomic<int>[nt + 1]);
   for (size_t i = 0; i <= nt; ++i) {
     w->begun[i].store(0);
     w->ended[i].store(0);
+    w->schedRet[i].store(0);
   }
+  w->nw = nw;
+  g_world = w;
   w->futs.resize(nt + 1);
   {
     Json j;
@@ -350,6 +398,7 @@ static ctl::RunResult execute(const Program& prog, int pidx, int nw, int mult, c
     runOps(w, w->prog->main);
     ctl::point("DrEnd");
     ctl::note("end", 0);
+    w->ended[0].store(1);
     // tear-down (not part of the program): every set has been waited for, only husks can be queued
     w->futs.clear();
     w->cts.clear();
@@ -359,6 +408,7 @@ static ctl::RunResult execute(const Program& prog, int pidx, int nw, int mult, c
     w->pool = nullptr;
   });
   ctl::RunResult res = c.run(opts);
+  g_world = nullptr;
   Json j;
   j.beginObj();
   if (res.completed) {
